@@ -250,6 +250,23 @@ theorem src_from_str_total {V Q : Type} (units : List Labels) (parse : Bytes →
   rw [from_str_eq]
   cases fromStr units parse mk s <;> exact ⟨_, _, rfl⟩
 
+/-- **format-then-parse, on the source**: for every quantity regenerated from src/si, every unit, both styles
+    and every stored value whose converted value prints without a space and re-parses: the bytes the
+    regenerated `QuantityArguments::fmt` writes, handed to the regenerated `from_str`, give `Ok` of the
+    construction of that value in a unit `v` with the same coefficient and offset as the unit printed. -/
+theorem src_roundtrip_table {V Q : Type} (parse : Bytes → Option V) (mk : Nat → V → Q) (fromB : V → V)
+    (fmtV : V → Bytes) (isOne : V → Bool) (q : QuantityDecl) (hq : q ∈ Gen.table)
+    (u : UnitDecl) (hu : u ∈ q.units) (style : Style) (x : V)
+    (hsp : 0x20 ∉ fmtV (fromB x)) (hparse : parse (fmtV (fromB x)) = some (fromB x)) :
+    ∃ j v, q.units[j]? = some v ∧ sameConversion u v = true ∧
+      (run (envFromStr q.labels parse mk) quantity_FromStr_for_quantity_from_str
+        [.str (run (envFmt fromB (fun v => some (fmtV v)) isOne (unitLabels u)) system_style_for_QuantityArguments_fmt
+                [.host (.qa style x), .fmtr]).2]).1 = .val (.ctor1 cOk (.host (.q (mk j (fromB x))))) := by
+  obtain ⟨j, v, hj, hsame, hrt⟩ := roundtrip_table parse mk fmtV isOne q hq u hu style (fromB x) hsp hparse
+  refine ⟨j, v, hj, hsame, ?_⟩
+  rw [quantity_arguments_fmt_eq, from_str_eq, hrt]
+  rfl
+
 end SourceTieRx
 
 end Uom.C12
